@@ -155,11 +155,11 @@ def similarity(ctx, n):
     ctx.measured['similarity_max_rel_dev_in_cutoff_band'] = worst_band
 
 
-def room_laws(ctx):
+def room_laws(ctx, three=None):
     """MEASURED on baked rooms: 0 <= F <= 1, zeros off the visible list, reciprocity, closure <= 2.5 %."""
     sp = common.import_repo()
     sides, p = scenes.gen_room_params(ctx.rng, small=True)
-    if ctx.rng.random() < 0.5:
+    if (ctx.rng.random() < 0.5) if three is None else three:
         # at least three patches along the longest side: the far wall's coordinate L and the
         # neighbours' last grid line n*(L/n) then often differ in the last place
         for _ in range(50):
@@ -198,8 +198,8 @@ def run(ctx):
     corr_stokes(ctx, 30 if ctx.tier == 'quick' else 600)
     corr_universal(ctx, 24 if ctx.tier == 'quick' else 600)
     similarity(ctx, 9 if ctx.tier == 'quick' else 150)
-    for _ in range(3 if ctx.tier == 'quick' else 25):
-        room_laws(ctx)
+    for k in range(10 if ctx.tier == 'quick' else 50):
+        room_laws(ctx, three=(k % 2 == 1))
 
 
 def oracle(ctx, budget_s=60):
